@@ -518,6 +518,9 @@ func (in *Interp) mapFind(m *MapVal, k Value) int {
 	if m == nil {
 		return -1
 	}
+	if m.Shared {
+		in.recordAccess(m, false)
+	}
 	for i := range m.E {
 		if in.Branch(in.valuesEqual(m.E[i].K, k, m.KT)) {
 			return i
@@ -556,6 +559,9 @@ func (in *Interp) mapUpdate(m *MapVal, k, v Value) {
 	if m.Frozen {
 		in.fail("unsupported", "write to a map of package-init state shared across paths (run with nocache)")
 	}
+	if m.Shared {
+		in.recordAccess(m, true)
+	}
 	i := in.mapFind(m, k)
 	if i >= 0 {
 		m.E[i].V = copyValue(v)
@@ -578,6 +584,9 @@ func (in *Interp) makeIter(x Value) Value {
 	switch m := x.(type) {
 	case *MapVal:
 		it := &MapIter{}
+		if m != nil && m.Shared {
+			in.recordAccess(m, false)
+		}
 		if m != nil {
 			order := make([]int, len(m.E))
 			for i := range order {
